@@ -314,6 +314,9 @@ class DirectCollocation(SamplingMethod):
             else:
                 # Row vector if vector
                 if value.is_column() and var.is_scalar(): value = value.T
+                if var in self.signals:
+                    target = stage.sample(var,'gist')[1]
+                    opti.set_initial(target, ca.repmat(value,1,target.shape[1]), cache_advanced=True)
                 for k in list(range(self.N))+[-1]:
                     target = self.eval_at_control(stage, var, k)
                     if k==-1 and is_same_expr(target, self.eval_at_control(stage, var, self.N-1)):
